@@ -9,3 +9,10 @@ import XPathV.Theorems.C16
 #print axioms XPathV.Theorems.C16.cache_unbounded_when_zero
 #print axioms XPathV.Theorems.C16.get_skeleton_ok
 #print axioms XPathV.Theorems.C16.evict_cond_ok
+#print axioms XPathV.Theorems.C16.C16_replace_template
+#print axioms XPathV.Theorems.C16.C16_replace_literal
+#print axioms XPathV.Theorems.C16.C16_replace_group_ref
+#print axioms XPathV.Theorems.C16.C16_replace_dollar_dollar
+#print axioms XPathV.Theorems.C16.C16_template_fuel
+#print axioms XPathV.Theorems.C16.C16_constant_bad_pattern_rejected
+#print axioms XPathV.Theorems.C16.replace_uses_rewritten_template
